@@ -452,6 +452,7 @@ pub fn c01_case(data: &[u8]) -> c01::Case {
             buf,
             storage_extra: match d.pick(7) { 0..=2 => 0, 3 | 4 => 1, _ => d.range(2, 70000) },
             set_reuse: if d.pick(7) == 0 { Some(reuse_cfg(d)) } else { None },
+            failed_call_before: if d.pick(5) == 0 { d.range(1, 2) as u8 } else { 0 },
         }
     });
     c01::Case { reuse, items }
